@@ -134,8 +134,6 @@ static const Result& baseline(Path p, const FileRef& f) {
     return it->second;
 }
 
-static const char* const O5M_SHORT_TAIL = "eof-within-9-bytes-after-a-dataset-type-byte";
-
 static bool o5m_short_tail(const FileRef& f) { return g_seeds[f.seed].fmt == "o5m" && structure(f).o5m_short_tail; }
 
 static std::string file_class(const FileRef& f) {
@@ -143,17 +141,6 @@ static std::string file_class(const FileRef& f) {
     std::string c = f.len < s.data.size() ? "truncated" : s.error_seed ? "error-seed" : "valid";
     if (o5m_short_tail(f)) c += std::string(",") + O5M_SHORT_TAIL;
     return c;
-}
-
-// Class key of a difference. Normally <fmt>/<what differs, with the exception texts>/<input class>/cut:<where the
-// smallest failing cut lies>. o5m inputs in which the end of the file comes less than 10 bytes after some data
-// set's type byte are one class of their own whatever the cut position and the wording of the error: there the
-// parser's refill (ensure_bytes_available(max_varint_length)) runs into the end of the input, which has nothing to
-// do with where the cut is - any cut only changes how the buffer is aligned at that moment.
-static std::string class_key(const FileRef& f, const Result& base, const Result& r, const std::string& where) {
-    const std::string& fmt = g_seeds[f.seed].fmt;
-    if (o5m_short_tail(f)) return fmt + "/" + diff_kind(base, r, false) + "/" + O5M_SHORT_TAIL;
-    return fmt + "/" + diff_kind(base, r) + "/" + file_class(f) + "/cut:" + where;
 }
 
 static std::string spec_of(Path p, const FileRef& f, const std::string& seg) {
@@ -178,7 +165,7 @@ static void report_difference(Path p, const FileRef& f, const Cuts& cuts, const 
     }
     std::string where = culprit.size() == 1 ? st.name(culprit[0]) : culprit.size() == 2 ? std::string(st.name(culprit[0])) + "+" + st.name(culprit[1]) : "three-or-more-cuts-needed";
     const Seed& s = g_seeds[f.seed];
-    std::string key = class_key(f, base, cr, where);
+    std::string key = class_key(s.fmt, o5m_short_tail(f), base, cr, file_class(f), "cut:" + where);
     std::string detail = std::string(PATH_NAME[p]) + " path, input " + s.name + (f.len < s.data.size() ? " truncated to " + std::to_string(f.len) + " of " : " (") + std::to_string(s.data.size()) + " bytes" + (f.len < s.data.size() ? "" : ")") +
         ", cuts at [" + cuts_text(cuts) + "]" + (culprit.size() < cuts.size() ? ", smallest failing subset [" + cuts_text(culprit) + "]" : "") +
         ": in one piece " + base.brief() + " but in pieces " + cr.brief();
